@@ -24,6 +24,9 @@ const (
 type Program struct {
 	closureDecls map[*ast.FuncLit]*ast.FuncDecl
 	closureFuncs map[*ast.FuncLit]*types.Func
+	fieldInit   map[types.Object]types.Object
+	globalInits map[*types.Var]ast.Expr
+	privAlloc   map[types.Object]bool
 	walkChecked bool
 	walkWhy     string
 	entryClasses map[string][]bool
